@@ -230,17 +230,161 @@ PLAIN_OUTPUT_SETS = [["0"], ["0"], ["o1", "o2"], ["0", "1", "2"], []]
 PLAIN_INPUT_NAMES = ["in0", "in1", "in2", "input", "x", "y"]
 
 
-def gen_graph(rng, nmax, adversarial=True, unique_names=True, names=None, min_nodes=1):
+SEGMENTS = ["lo", "hi", "0", "o1", "o2", "x", "y", "a", "b", "mean", "1", "name", "in0", "input", "main", "x.y"]
+CLUSTER_BASES = ["split", "main", "a", "a.b", "n.a.m", "m", "p", "0", "x", "in0", "mean", "o1", "node", "é"]
+
+
+def ref_str(nodes, j, o):
+    """`str(Output)`: the default output renders as the bare node name, a named one as `<node>.<output>`."""
+    return nodes[j]["name"] if o == "0" else nodes[j]["name"] + "." + o
+
+
+def derived_name(rng, nodes):
+    """A node name built from what is already in the graph: `<node>.<output>`, `<node>.<DEFAULT_OUTPUT>`,
+    several dots, a dotted name's prefix, another node's output name or input name.
+    Returns (name, output the new node should declare so that the collision is a real one | None)."""
+    x = rng.choice(nodes)
+    r = rng.random()
+    outs_all = [o for n in nodes for o in n["outputs"]]
+    ins_all = [k for n in nodes for k, _, _ in n["inputs"]]
+    if r < 0.30 and x["outputs"]:
+        return x["name"] + "." + rng.choice(x["outputs"]), "0"
+    if r < 0.38:
+        return x["name"] + ".0", rng.choice(["0", None])
+    if r < 0.48:
+        return x["name"] + "." + rng.choice(SEGMENTS), rng.choice(["0", None])
+    if r < 0.56:
+        return x["name"] + "." + rng.choice(SEGMENTS) + "." + rng.choice(SEGMENTS), rng.choice(["0", None])
+    if r < 0.72 and "." in x["name"].strip("."):
+        cut = rng.choice([i for i, c in enumerate(x["name"]) if c == "." and 0 < i < len(x["name"]) - 1])
+        return x["name"][:cut], x["name"][cut + 1:]           # a prefix that has the rest as a named output
+    if r < 0.86 and outs_all:
+        return rng.choice(outs_all), None
+    if ins_all:
+        return rng.choice(ins_all), None
+    return x["name"] + ".0", None
+
+
+def _add_cluster(rng, nodes, used, inames, outsets, pool, unique_names):
+    """A name-collision cluster: one dotted string `b.s1...sk` split in several ways into (node name, output
+    name) — ("b.s1", default), ("b", "s1"), ("b", "s1.s2"), ... — so that str()/"<node>.<output>" renderings
+    of DIFFERENT outputs coincide, plus consumers with equal payload, outputs and input names, one per
+    producer (and possibly an exact duplicate): everything a name-based de-duplication / cache / cut key
+    would confuse although the consumers denote different terms."""
+    base = rng.choice(CLUSTER_BASES + pool[:6])
+    segs = [rng.choice([s for s in SEGMENTS if "." not in s]) for _ in range(rng.choice([1, 1, 1, 2, 2, 3]))]
+    parts = base.split(".") if all(base.split(".")) else [base]
+    nbase = len(parts)
+    full = parts + segs
+    splits = list(range(1, len(full) + 1))
+    rng.shuffle(splits)
+    # always include one split inside the segments so that a named output is involved
+    chosen = splits[:rng.randint(2, min(3, len(splits)))]
+    if all(p == len(full) or p < nbase for p in chosen):
+        chosen[0] = rng.randint(nbase, len(full) - 1)
+    chosen = sorted(set(chosen))
+    cands = [(j, o) for j, x in enumerate(nodes) for o in x["outputs"]]
+    common = []
+    if cands and rng.random() < 0.6:
+        for kn in rng.sample(inames, rng.randint(1, min(2, len(cands)))):
+            common.append([kn] + list(rng.choice(cands)))
+    same_payload = rng.random() < 0.5
+    pay = rng.randint(0, 4)
+    extra_out = rng.choice([[], [], ["0"], [rng.choice(SEGMENTS)], ["0", rng.choice(SEGMENTS)]])
+    prods = []
+    if not unique_names and rng.random() < 0.6:
+        chosen = chosen + [rng.choice(chosen)]     # two DIFFERENT nodes with the same name and the same output name
+    for p in chosen:
+        name = ".".join(full[:p])
+        out = ".".join(full[p:]) or "0"
+        if unique_names and name in used:
+            continue
+        outs = [out] + [o for o in extra_out if o != out]
+        outs = list(dict.fromkeys(outs))
+        rng.shuffle(outs)
+        ins = [list(x) for x in common] if rng.random() < 0.8 else []
+        used.add(name)
+        nodes.append({"name": name, "outputs": outs, "payload": pay if same_payload else rng.randint(0, 4), "inputs": ins})
+        prods.append((len(nodes) - 1, out))
+    if len(prods) < 2:
+        return
+    if rng.random() < 0.3:
+        prods.append(rng.choice(prods))          # an exact duplicate among the consumers: a merge that IS right
+    rng.shuffle(prods)
+    ks = rng.sample(inames, rng.randint(1, 2))
+    cpay = rng.randint(0, 4)
+    couts = list(rng.choice(outsets))
+    cands = [(j, o) for j, x in enumerate(nodes) for o in x["outputs"]]
+    second = list(rng.choice(cands)) if len(ks) > 1 else None
+    for j, o in prods:
+        ins = [[ks[0], j, o]]
+        if second is not None:
+            ins.append([ks[1]] + second)
+            rng.shuffle(ins)
+        nm = base_nm = rng.choice(pool)
+        c = 0
+        while unique_names and nm in used:
+            nm = base_nm + str(c)
+            c += 1
+        used.add(nm)
+        nodes.append({"name": nm, "outputs": list(couts), "payload": cpay, "inputs": ins})
+
+
+def _confusable(nodes, j, o):
+    """Outputs other than (j, o) that some name-based rendering cannot tell from it: equal str(Output),
+    equally named parents with the same output name, `<node>.<output>` strings that are equal."""
+    s = ref_str(nodes, j, o)
+    full = nodes[j]["name"] + "." + o
+    out = []
+    for j2, x in enumerate(nodes):
+        for o2 in x["outputs"]:
+            if (j2, o2) == (j, o):
+                continue
+            if ref_str(nodes, j2, o2) == s or x["name"] + "." + o2 == full or (x["name"] == nodes[j]["name"] and j2 != j):
+                out.append((j2, o2))
+    return out
+
+
+def gen_graph(rng, nmax, adversarial=True, unique_names=True, names=None, min_nodes=1, collide=None):
     """Random DAG: shared sub-expressions, multi-output nodes, exact duplicates (also with permuted input
-    order), several sinks (also non-terminal ones), adversarial names."""
+    order), several sinks (also non-terminal ones), adversarial names; node names derived from other nodes'
+    names / output names / input names, name-collision clusters and "twins" (equal payload, outputs and
+    input names, inputs re-pointed to outputs that render alike)."""
     n = rng.randint(min_nodes, max(min_nodes, nmax))
     outsets = OUTPUT_SETS if adversarial else PLAIN_OUTPUT_SETS
     inames = INPUT_NAMES if adversarial else PLAIN_INPUT_NAMES
     pool = names or NAMES
     nodes = []
     used = set()
-    for i in range(n):
-        if nodes and rng.random() < 0.25:
+    if collide is None:
+        collide = adversarial and rng.random() < 0.45
+    cluster_at = rng.randint(0, max(0, n - 4)) if collide and rng.random() < 0.7 else None
+    p_derived = 0.4 if collide else (0.08 if adversarial else 0.0)
+    p_twin = 0.3 if collide else (0.06 if adversarial else 0.0)
+    i = -1
+    while len(nodes) < n:
+        i += 1
+        if cluster_at is not None and i == cluster_at:
+            _add_cluster(rng, nodes, used, inames, outsets, pool, unique_names)
+            continue
+        want_out = None
+        twin = None
+        if nodes and rng.random() < p_twin:
+            # twin: same payload / outputs / input names as an existing node, >= 1 input re-pointed to a confusable output
+            opts = [(x, t, c) for x in nodes for t, (k, j, o) in enumerate(x["inputs"]) for c in [_confusable(nodes, j, o)] if c]
+            if opts:
+                src, t, conf = rng.choice(opts)
+                ins = [list(x) for x in src["inputs"]]
+                ins[t] = [ins[t][0]] + list(rng.choice(conf))
+                for t2 in range(len(ins)):
+                    c2 = _confusable(nodes, ins[t2][1], ins[t2][2])
+                    if t2 != t and c2 and rng.random() < 0.3:
+                        ins[t2] = [ins[t2][0]] + list(rng.choice(c2))
+                rng.shuffle(ins)
+                twin = {"name": None, "outputs": list(src["outputs"]), "payload": src["payload"], "inputs": ins}
+        if twin is not None:
+            node = twin
+        elif nodes and rng.random() < 0.25:
             src = rng.choice(nodes)
             ins = [list(x) for x in src["inputs"]]
             rng.shuffle(ins)
@@ -264,15 +408,24 @@ def gen_graph(rng, nmax, adversarial=True, unique_names=True, names=None, min_no
         nm = rng.choice(pool)
         if adversarial and rng.random() < 0.3:
             nm = nm + rng.choice(["", ".", "-1", "0", ".mean", "n"])
+        if nodes and rng.random() < p_derived:
+            nm, want_out = derived_name(rng, nodes)
+        elif nodes and not unique_names and rng.random() < 0.25:
+            nm = rng.choice(nodes)["name"]           # the very name of another node
         if unique_names:
             base = nm
             c = 0
             while nm in used:
                 nm = base + str(c)
                 c += 1
+            if nm != base:
+                want_out = None
+        if want_out is not None and twin is None and want_out not in node["outputs"] and rng.random() < 0.8:
+            node["outputs"] = node["outputs"] + [want_out] if node["outputs"] and rng.random() < 0.5 else [want_out]
         used.add(nm)
         node["name"] = nm
         nodes.append(node)
+    n = len(nodes)
     consumed = {j for x in nodes for _, j, _ in x["inputs"]}
     sinks = [i for i in range(n) if i not in consumed]
     extra = [i for i in range(n) if i in consumed and rng.random() < 0.12]
@@ -305,6 +458,10 @@ def gen_chainy(rng, nmax, adversarial=True):
             ins.append([kn, j, o])
         outs = list(rng.choice(outsets)) if i < n - 1 or rng.random() < 0.5 else []
         nm = rng.choice(NAMES if adversarial else ["n", "p", "q"])
+        if adversarial and nodes and rng.random() < 0.3:
+            nm, want = derived_name(rng, nodes)
+            if want is not None and outs and want not in outs and nm not in used and rng.random() < 0.7:
+                outs = outs + [want] if rng.random() < 0.5 else [want]
         base, c = nm, 0
         while nm in used:
             nm = base + str(c)
@@ -334,6 +491,23 @@ def features(ag):
     f["attr_output"] = any(o in attrs for n in nodes for o in n["outputs"])
     f["param_input"] = any(k in ("node", "n", "p", "s", "g", "graph") for n in nodes for k, _, _ in n["inputs"])
     f["terminal_with_outputs"] = any(nodes[s]["outputs"] for s in ag["sinks"])
+    # names built from other names
+    names = {n["name"] for n in nodes}
+    f["name_is_node_dot_output"] = any(n["name"] + "." + o in names for n in nodes for o in n["outputs"])
+    f["name_is_output_or_input_name"] = bool(names & ({o for n in nodes for o in n["outputs"]} | {k for n in nodes for k, _, _ in n["inputs"]}))
+    f["name_many_dots"] = any(n["name"].count(".") >= 2 for n in nodes)
+    rend = collections.defaultdict(set)
+    for j, n in enumerate(nodes):
+        for o in n["outputs"]:
+            rend[ref_str(nodes, j, o)].add((j, o))
+    f["outputs_render_alike"] = any(len(v) > 1 for v in rend.values())
+    # two nodes a name-based comparison cannot tell apart although they read different outputs
+    sig = collections.defaultdict(set)
+    for n in nodes:
+        if n["inputs"]:
+            key = (hp(n["payload"]), tuple(n["outputs"]), tuple(sorted((k, ref_str(nodes, j, o)) for k, j, o in n["inputs"])))
+            sig[key].add(tuple(sorted((k, j, o) for k, j, o in n["inputs"])))
+    f["colliding_consumers"] = any(len(v) > 1 for v in sig.values())
     return f
 
 
